@@ -607,7 +607,7 @@ func judgeExchange(c ExchangeCase) (vs []evid.Violation) {
 		rec.Class("harness:barrier-timed-out")
 	}
 
-	if !in.Signer.Alive() || (perr != nil && in.Signer.WaitExit(2*time.Second)) {
+	if !in.Signer.Alive() || (perr != nil && in.Signer.WaitExit(750*time.Millisecond)) {
 		vs = append(vs, evid.V("process-survives", "the ffsigner process died during the exchange (request %s): %s", short(body), in.Signer.ExitInfo(2500)))
 		pool.NoteCrash()
 		pool.Drop(in)
